@@ -204,7 +204,11 @@ func (f *fprinter) node(n Node, level int) {
 		f.sb.WriteString(strings.Repeat("\t", level+1) + "env.GS(`l1\nl2`)\n")
 		f.indent(level, "}}")
 	case "hcomment":
-		f.indent(level, "<!-- c -->")
+		if f.src == 1 {
+			f.indent(level, "<!--c-->")
+		} else {
+			f.indent(level, "<!-- c -->")
+		}
 	case "gcomment":
 		f.indent(level, "// gc")
 	case "mcomment":
